@@ -271,6 +271,11 @@ let run () =
            let kind = f.(2) in
            let o = match !cur_oracle with Some o -> o | None -> base_oracle () in
            cur_oracle := None;
+           (* the kernel's clock at the start of this operation: just before the
+              first clock reading the operation made (if any) *)
+           (match o.o_times with
+            | t :: _ -> world := { !world with w_fs = tick !world.w_fs (Z.add t (z_of_int (-1000000))) }
+            | [] -> ());
            Printf.printf "# step %d begin %s\n" !step kind;
            let fds_before = count_fds () in
            let key i = { k_name = cs f.(i); k_hash = n_of_string f.(i + 1); k_sec = n_of_string f.(i + 2) } in
